@@ -340,6 +340,8 @@ class Interp:
             if v[0] == "l" and len(v[1]) == 1 and isinstance(e.args[0], ast.List) and v[1][0][0] == "r" \
                     and isinstance(e.args[0].elts[0], ast.Name):
                 return v[1][0]  # np.array([x]) of the scalar mesh point: the collapsed mesh axis
+            if v[0] == "r":
+                return v  # a (copy of a) mesh-axis array: one real in the collapsed model
             return ("v", self.as_vector(v))
         if src == "np.zeros":
             if len(e.args) != 1 or set(kw) - {"dtype"} or ("dtype" in kw and ast.unparse(kw["dtype"]) != "float"):
@@ -353,6 +355,18 @@ class Interp:
             if shp[1][1][0] == "i":
                 return ("m", [["0"] * shp[1][1][1] for _ in range(n)])
             raise Unsupported("np.zeros shape")
+        if src in ("np.ravel", "np.atleast_1d", "np.copy") and len(e.args) == 1 and not kw:
+            v = self.ev(e.args[0], env)
+            if v[0] in ("r", "v"):
+                return v  # reshaping / copying along the collapsed mesh axis
+            raise Unsupported(f"{src} of a {v[0]}")
+        if isinstance(f, ast.Attribute) and f.attr == "copy" and not e.args and not kw:
+            v = self.ev(f.value, env)
+            if v[0] == "r":
+                return v
+            if v[0] == "v":
+                return ("v", list(v[1]))
+            raise Unsupported(f"copy of a {v[0]}")
         if src == "np.vstack":
             if len(e.args) != 1 or kw:
                 raise Unsupported("np.vstack call")
@@ -370,6 +384,8 @@ class Interp:
             return ("i", len(args[0][1]))
         if src == "float" and len(args) == 1 and args[0][0] in ("r", "i"):
             return R(to_real(args[0]))
+        if src in ("np.abs", "np.absolute", "np.fabs", "abs") and len(args) == 1 and args[0][0] in ("r", "i"):
+            return R(f"(Rabs {to_real(args[0])})")
         if src == "bell" and len(args) == 3:
             if args[0][0] != "i" or args[1][0] != "i" or args[2][0] != "v":
                 raise Unsupported("bell arguments")
@@ -538,7 +554,6 @@ WIRING = {
         "new_interpolate[0, :] = interpolated[0, :]",
         "deriv = _derivative_transformation_matrix(deriv_funcs, pt[i], order - 1)",
         "new_interpolate[1:, i] = deriv.dot(interpolated[1:, i])",
-        "return new_interpolate",
         "return interpolate_wrt_original_var",
     ],
 }
